@@ -6,12 +6,19 @@
        (explicit entry, else merged pattern entries) or the global table has a rule without pattern
        or with a pattern accepting the decoded input value;
      - a start or self-closing tag is emitted bare only if the element is allowed without attributes.
-   Missing: provenance through the later rewriting passes (URL pass: C03; rel/target: C11;
-   crossorigin/sandbox: C12 are proved separately) as one theorem about the final list, and the
-   re-tokenisation of the rendered tag. Both are covered by the attrs correspondence and the oracle. *)
+     - for the FINAL list sanitizeAttrs returns (C02_final_list): every attribute carries a key the
+       sanitizer forces (rel, target, crossorigin, sandbox), or is an attribute justified as above and
+       unchanged, or is such an attribute on which the URL pass ran, with the value validURL returned
+       (so value patterns were judged on the decoded input value, before re-serialisation);
+     - for the BYTES of the output (C02_output_tokens), for every policy that keeps no comments and
+       allows no raw-text element: every attribute of every tag a tokenizer reads from the output
+       has that provenance with respect to a tag of the input, and a tag is bare only if the
+       element is allowed without attributes.
+   Missing: the byte-level statement for policies that keep comments or raw-text elements;
+   covered by the attrs correspondence and the oracle. *)
 From Coq Require Import List NArith Bool.
 Import ListNotations.
-From BM Require Import Bytes Strings Tokenizer Policy Style Attrs Loop LoopInv LoopProps AttrsSound.
+From BM Require Import Bytes Strings Tokenizer Policy Url Style Attrs Loop LoopInv LoopProps AttrsSound AttrProvenance SanRoundTrip TokenLevel.
 
 Section C02.
   Variables M U R : Type.
@@ -35,8 +42,36 @@ Section C02.
     intros safe ts n [H|H]; destruct (emitted_justified I p safe ts _ H) as (st & t & _ & Hj); simpl in Hj;
       destruct Hj as (_ & _ & a & aps & _ & _ & _ & Hb); apply Hb; reflexivity.
   Qed.
+
+  (* the list sanitizeAttrs returns *)
+  Theorem C02_final_list : forall elem attrs aps a, In a (sanitize_attrs I p elem attrs aps) ->
+    forced_key (akey a) = true \/
+    exists a0 a1, In a0 attrs /\ attr_justified I p elem aps a0 a1 /\
+      ((a = a1 /\ url_checked p elem a1 = false) \/ (url_checked p elem a1 = true /\ url_rewritten I p elem a1 a)).
+  Proof. exact (sanitize_attrs_justified I p). Qed.
+
+  (* the attributes a tokenizer reads from the bytes of the output *)
+  Theorem C02_output_tokens : plain_policy I p -> forall s n a',
+    In (TStart n a') (tokenize (sanitize_bytes I p s)) \/ In (TSelf n a') (tokenize (sanitize_bytes I p s)) ->
+    exists a aps,
+      (In (TStart n a) (tokenize s) \/ In (TSelf n a) (tokenize s)) /\ element_policies I p n = Some aps /\
+      (a' = [] -> allow_no_attrs I p n = true) /\
+      forall x, In x a' ->
+        forced_key (akey x) = true \/
+        exists a0 a1, In a0 a /\ attr_justified I p n aps a0 a1 /\
+          ((x = a1 /\ url_checked p n a1 = false) \/ (url_checked p n a1 = true /\ url_rewritten I p n a1 x)).
+  Proof.
+    intros Hplain s n a' [Hin|Hin];
+      pose proof (output_token_provenance M U R I p Hplain s _ Hin) as H; cbn in H;
+      destruct H as (_ & _ & a & aps & Hsrc & Hp & Ha & Hb); exists a, aps;
+      (split; [auto|]); (split; [exact Hp|]); (split; [exact Hb|]);
+      intros x Hx; subst a'; unfold clean_attrs in Hx; destruct a as [|a0 ar]; try contradiction;
+      apply (sanitize_attrs_justified I p); exact Hx.
+  Qed.
 End C02.
 
 Print Assumptions C02_filter_sound_partial.
 Print Assumptions C02_rule_accepts.
 Print Assumptions C02_not_bare.
+Print Assumptions C02_final_list.
+Print Assumptions C02_output_tokens.
